@@ -85,31 +85,78 @@ def render(ev, now):
 
 
 class Run(object):
-    """replays a history on a fresh AddrMap, checking the oracle after every event"""
+    """replays a history on a fresh AddrMap, checking the oracle after every event.
+    via='direct': AddrMap.update(); via='torstate': the first event is served in the address-mappings/all answer while a real
+    TorState bootstraps over the wire, the others arrive as 650 ADDRMAP events."""
 
-    def __init__(self, history, check=True):
+    def __init__(self, history, check=True, via='direct'):
         self.viol = []
         self.log = []
         self.ref = {}          # name -> (addr, abs expiry or None)
         self.now = 0
+        self.via = via
         clock = task.Clock()
         _ShimDatetimeClass._clock = clock
         addrmap_mod.datetime = _ShimModule
         try:
             self.clock = clock
-            self.am = AddrMap()
-            self.am.scheduler = clock
-            self.lst = Listener()
-            self.am.add_listener(self.lst)
-            for i, ev in enumerate(history):
-                self.step(ev, check and i == len(history) - 1, check)
-                if self.viol:
-                    break
+            if via == 'direct':
+                self.am = AddrMap()
+                self.am.scheduler = clock
+                self.lst = Listener()
+                self.am.add_listener(self.lst)
+                for i, ev in enumerate(history):
+                    self.step(ev, check and i == len(history) - 1, check)
+                    if self.viol:
+                        break
+            else:
+                self.run_torstate(history, check)
         finally:
             addrmap_mod.datetime = real_datetime
 
-    def step(self, ev, record, check):
-        before = len(self.lst.calls)
+    def run_torstate(self, history, check):
+        from mc.simtor import connected_protocol, finish_bootstrap
+        from txtorcon.torstate import TorState
+        with World() as w:
+            proto, wire, sim = connected_protocol(w)
+            self.sim = sim
+            first = history[0] if history and history[0][0] != 'adv' else None
+            if first is not None:
+                sim.info['address-mappings/all'] = [render(first, 0)]
+            st = TorState(proto)
+            st.addrmap.scheduler = self.clock
+            self.am = st.addrmap
+            self.lst = Listener()
+            self.am.add_listener(self.lst)
+            boot = []
+            st.post_bootstrap.addCallbacks(lambda s: boot.append('ok'), lambda f: boot.append(f))
+            finish_bootstrap(proto)
+            sim.pump()
+            if boot != ['ok']:
+                self.viol.append(('bootstrap-failed', 'torstate', '%r %r' % (boot, w.errors()[:1])))
+                return
+            rest = history
+            if first is not None:
+                self.bootstrap_event = True
+                self.step(first, False, check, already_applied=True)
+                rest = history[1:]
+            for ev in rest:
+                if self.viol:
+                    break
+                self.step(ev, False, check)
+            errs = w.errors()
+            if errs and not self.viol:
+                self.viol.append(('logged-error', errs[0][1], '%r' % (errs[:1],)))
+
+    def deliver(self, line):
+        if self.via == 'direct':
+            self.am.update(line)
+        else:
+            self.sim.event('ADDRMAP ' + line)
+            self.sim.pump()
+
+    def step(self, ev, record, check, already_applied=False):
+        before = 0 if already_applied else len(self.lst.calls)
         present_before = set(self.ref)
         expect = []      # list of acceptable listener-call multisets for this step, as sorted tuples
         try:
@@ -129,7 +176,8 @@ class Run(object):
                 if ev[0] == 'err':
                     was = name in self.ref
                     self.ref.pop(name, None)
-                    self.am.update(line)
+                    if not already_applied:
+                        self.deliver(line)
                     self.clock.advance(0)
                     expect = [(), (('expired', name),)] if was else [()]
                 else:
@@ -142,7 +190,8 @@ class Run(object):
                     else:
                         self.ref[name] = (addr, None if off is None else self.now + off)
                         expect = [()] if was else [(('added', name),)]
-                    self.am.update(line)
+                    if not already_applied:
+                        self.deliver(line)
                     self.clock.advance(0)
         except Exception as e:
             self.viol.append(('exception', '%s/%s' % (type(e).__name__, ev[0]),
@@ -207,17 +256,20 @@ class Run(object):
 
 
 def tasks(tier, seed):
-    return [('bfs', i) for i in range(len(events(tier)))]
+    return [('bfs', i, 'direct') for i in range(len(events(tier)))] + [('bfs', i, 'torstate') for i in range(len(events(tier)))]
 
 
 def run_task(param, acc):
     evs = events(acc.tier)
-    depth = 4 if acc.tier == 'quick' else 5
+    via = param[2]
+    depth = (4 if acc.tier == 'quick' else 5) - (2 if via == 'torstate' else 0)
     first = evs[param[1]]
     seen = set()
     frontier = [(first,)]
-    r0 = Run(frontier[0])
-    handle(acc, frontier[0], r0)
+    r0 = Run(frontier[0], via=via)
+    handle(acc, frontier[0], r0, via)
+    if r0.viol:
+        return
     seen.add(h64(r0.canon()))
     level = 1
     while frontier and level < depth:
@@ -225,9 +277,9 @@ def run_task(param, acc):
         for hist in frontier:
             for ev in evs:
                 h2 = hist + (ev,)
-                r = Run(h2)
-                handle(acc, h2, r)
-                if r.viol:
+                r = Run(h2, via=via)
+                handle(acc, h2, r, via)
+                if r.viol or not hasattr(r, 'am'):
                     continue           # do not extend histories that already violate
                 k = h64(r.canon())
                 if k not in seen:
@@ -239,20 +291,22 @@ def run_task(param, acc):
     acc.sample(dict(history=[list(e) for e in h2], log=r.log), limit=1)
 
 
-def handle(acc, hist, r):
+def handle(acc, hist, r, via='direct'):
     oc = tuple(sorted(set(v[0] for v in r.viol))) or ('live=%d' % len(r.ref),)
-    acc.execution(key=hist, outcome='/'.join(oc), nontrivial=len(hist) >= 2, steps=len(hist))
+    acc.execution(key=(hist, via), outcome='/'.join(oc), nontrivial=len(hist) >= 2, steps=len(hist))
     if acc.want_recheck(0.003):
-        r2 = Run(hist)
-        acc.recheck((r.viol, r.canon()), (r2.viol, r2.canon()))
+        r2 = Run(hist, via=via)
+        acc.recheck((r.viol, r.canon() if hasattr(r, 'am') else None), (r2.viol, r2.canon() if hasattr(r2, 'am') else None))
     for clause, feat, detail in r.viol:
-        acc.violation('%s/%s' % (clause, feat), detail, dict(history=[list(e) for e in hist]), cost=len(hist))
+        acc.violation('%s/%s%s' % (clause, feat, '/via-torstate' if via == 'torstate' else ''), detail,
+                      dict(history=[list(e) for e in hist], via=via), cost=len(hist) + (1 if via == 'torstate' else 0))
 
 
 def replay(p):
     hist = tuple(tuple(e) for e in p['history'])
-    r = Run(hist)
-    return dict(violations=[dict(signature='%s/%s' % (c, f), what=d) for c, f, d in r.viol], log=r.log)
+    via = p.get('via', 'direct')
+    r = Run(hist, via=via)
+    return dict(violations=[dict(signature='%s/%s%s' % (c, f, '/via-torstate' if via == 'torstate' else ''), what=d) for c, f, d in r.viol], log=r.log)
 
 
 def meta(tier):
